@@ -12,23 +12,34 @@ SLICES = [
     {"name": "contains", "cname": "CBloomFilter_contains", "kind": "func", "file": BC, "head": r"bool CBloomFilter::contains\(std::span<const unsigned char> vKey\) const",
      "rules": [R("head", r"bool CBloomFilter::contains\(std::span<const unsigned char> vKey\) const", "bool CBloomFilter_contains(const CBloomFilter* self)"), R("ghost:the hash number whose bit is clear", r"return false;", "{ GHOST_WIT(i); return 0; }", True)] + COMMON,
      "loops": [{"match": r"unsigned int i = \d+;", "contract": "LOOP_CONTAINS", "prologue": "((void)0)"}]},
+    {"name": "GolombRiceEncode", "kind": "func", "file": "src/util/golombrice.h", "head": r"template <typename OStream>\s*void GolombRiceEncode\(BitStreamWriter<OStream>& bitwriter, uint8_t P, uint64_t x\)",
+     "rules": [R("head: the bit writer as a ghost stream of events", r"template <typename OStream>\s*void GolombRiceEncode\(BitStreamWriter<OStream>& bitwriter, uint8_t P, uint64_t x\)", "void GolombRiceEncode(BitWriter* bitwriter, uint8_t P, uint64_t x)"),
+               R("stub:bitwriter.Write", r"bitwriter\.Write\(", "BitWriter_Write(bitwriter, ", True)],
+     "loops": [{"match": r"while \(q > 0\)", "contract": "LOOP_UNARY_W", "prologue": "((void)0)"}]},
+    {"name": "GolombRiceDecode", "kind": "func", "file": "src/util/golombrice.h", "head": r"template <typename IStream>\s*uint64_t GolombRiceDecode\(BitStreamReader<IStream>& bitreader, uint8_t P\)",
+     "rules": [R("head", r"template <typename IStream>\s*uint64_t GolombRiceDecode\(BitStreamReader<IStream>& bitreader, uint8_t P\)", "uint64_t GolombRiceDecode(BitReader* bitreader, uint8_t P)"),
+               R("stub:bitreader.Read", r"bitreader\.Read\(", "BitReader_Read(bitreader, ", True)],
+     "loops": [{"match": r"while \(BitReader_Read\(bitreader, 1\) == 1\)", "contract": "LOOP_UNARY_R", "prologue": "((void)0)"}]},
 ]
 PLAN = {
     "id": "C51", "level": "proof", "slices": SLICES, "spec": "spec.c", "default_solver": ["cadical", "z3"],
     "harnesses": [
         {"name": "h_insert", "enforce": "CBloomFilter_insert", "loop_contracts": True, "twins": [{"define": "TWIN_CLEAR", "expect": "postcondition|loop_invariant"}]},
         {"name": "h_contains", "enforce": "CBloomFilter_contains", "loop_contracts": True, "twins": [{"define": "TWIN_ANY", "expect": "postcondition"}]},
+        {"name": "h_GolombRiceEncode", "enforce": "GolombRiceEncode", "loop_contracts": True, "twins": [{"define": "TWIN_GR", "expect": "postcondition|loop_invariant"}]},
+        {"name": "h_GolombRiceDecode", "enforce": "GolombRiceDecode", "loop_contracts": True},
+        {"name": "h_lemma_golomb_roundtrip", "replace": ["GolombRiceEncode", "GolombRiceDecode"], "twins": [{"define": "TWIN_RT", "expect": "assertion"}]},
         {"name": "h_lemma_no_false_negative", "replace": ["CBloomFilter_insert", "CBloomFilter_contains"], "twins": [{"define": "TWIN_OTHER_KEY", "expect": "assertion"}]},
     ],
     "native": {"src": "replay.cpp", "c_src": "native_slices.c", "repo_sources": ["src/common/bloom.cpp"], "diff_n_quick": 3000, "diff_n_thorough": 300000,
                "libs": ["libbitcoin_common.a", "libbitcoin_consensus.a", "libbitcoin_util.a", "libbitcoin_clientversion.a", "libbitcoin_crypto.a", "/repo/_build/src/secp256k1/lib/libsecp256k1.a"]},
-    "not_covered": ["MurmurHash3 and the reduction `% (vData.size() * 8)` inside CBloomFilter::Hash (the hash is a deterministic ghost table per hash number with the range ASSUMED)", "BIP158 GCS filters and Golomb-Rice coding, the rolling bloom filter, partial merkle trees, IsRelevantAndUpdate"],
+    "not_covered": ["BitStreamWriter / BitStreamReader themselves (the bit stream under Golomb-Rice coding is a ghost event stream: a run of one bits, a zero bit, a P-bit field; its FIFO law is assumed)", "MurmurHash3 and the reduction `% (vData.size() * 8)` inside CBloomFilter::Hash (the hash is a deterministic ghost table per hash number with the range ASSUMED)", "BIP158 GCS filter construction and matching (hashing to the range, sorting, deltas), the rolling bloom filter, partial merkle trees, IsRelevantAndUpdate"],
     "assumptions": ["CBloomFilter::Hash(i, key) is a ghost table g_hash[i] (same key => same values) with g_hash[i] < 8 * vData.size() ASSUMED (the property of `%` that no back end decides here)",
                     "vData is a byte array of at most 36,000 bytes (MAX_BLOOM_FILTER_SIZE), nHashFuncs at most 50 (MAX_HASH_FUNCS)"],
     "manifest": {
         "category": "proof",
-        "text": "partial (plain bloom filter): CBloomFilter::insert sets, for every hash number below nHashFuncs, exactly the bit the hash selects and never clears a bit (empty filter: no-op); contains returns true for an empty filter and otherwise reports a mismatch only when some selected bit is clear; "
-                "hence (contract-only lemma) a key is matched after it has been inserted, also after any number of other inserts -- no false negatives.",
+        "text": "partial (plain bloom filter, Golomb-Rice coding): CBloomFilter::insert sets, for every hash number below nHashFuncs, exactly the bit the hash selects and never clears a bit (empty filter: no-op); contains returns true for an empty filter and otherwise reports a mismatch only when some selected bit is clear; "
+                "hence (contract-only lemma) a key is matched after it has been inserted, also after any number of other inserts -- no false negatives; GolombRiceEncode writes x >> P one bits, a zero bit and the low P bits of x, GolombRiceDecode reads such a stream back as (ones << P) + field, so decode(encode(x)) == x for every x and every P below 64 (the element coding of BIP158 filters).",
         "note": "Not covered: the hash function itself, GCS / Golomb-Rice, rolling bloom, partial merkle trees.",
         "technique": "CBMC function contracts with loop contracts on extracted common/bloom.cpp insert / contains, contract-only lemma",
     },
